@@ -129,6 +129,8 @@ class Ctx:
         self.step_out = {}  # sid -> materialised step
         self.saved_states = {}
         self.culprits = []
+        self.import_epoch = []
+        self.results_by_epoch = {}
         self.held = []  # results the caller still holds: (label, array, digest) -- caller-owned once returned
         self.class_first = {}
         self.last_registry_sig = None
@@ -692,6 +694,11 @@ class Ctx:
             self.stats["optional_module_imported"] += 1
         except ImportError:
             pass
+        # importing an optional module may legitimately register more dispatch rules under shared names
+        # (sqrt / inverse of Nystrom preconditioners): results are only compared within one import epoch
+        self.import_epoch = self.import_epoch + [step["module"].rsplit(".", 1)[-1]]
+        self.results_by_epoch.update({"|".join(self.import_epoch[:-1]) + "#" + k: v for k, v in self.results.items()})
+        self.results = {}
         self.events.append(("import", sid_of(step), step["module"]))
         self.sched_sig.append("import")
         self.check_invariants(step["id"], "import step %d" % step["id"])
@@ -1199,7 +1206,8 @@ def run_program(program):
                                 + ctx.stats["reseed_inside_callback"]) > 0),
         "program": mat,
         "culprits": ctx.culprits[:5],
-        "call_results": ({k: jhash(v["out"]) for k, v in ctx.results.items()}
-                         if (program.get("config") or {}).get("letters") else None),
-        "results_digest": jhash({k: v["out"] for k, v in ctx.results.items()}),
+        "call_results": ({k: jhash(v["out"]) for k, v in list(ctx.results_by_epoch.items())
+                          + [("|".join(ctx.import_epoch) + "#" + k, v) for k, v in ctx.results.items()]}
+                         if ((program.get("config") or {}).get("letters") or program.get("want_results")) else None),
+        "results_digest": jhash({k: v["out"] for k, v in list(ctx.results_by_epoch.items()) + list(ctx.results.items())}),
     }
